@@ -77,10 +77,10 @@ class Sodium(material.Fluid):
         g = 511.58
         h = 0.5
         Tcrit = 2503.7  # critical temperature
+        # at the upper end of the valid range (the critical point) rounding can make this slightly negative
+        reduced = max(0.0, 1 - (Tc + 273.15) / Tcrit)
         return (
-            critDens
-            + f * (1 - (Tc + 273.15) / Tcrit)
-            + g * (1 - (Tc + 273.15) / Tcrit) ** h
+            critDens + f * reduced + g * reduced**h
         ) / 1000.0  # convert from kg/m^3 to g/cc.
 
     def specificVolumeLiquid(self, Tk=None, Tc=None):
